@@ -78,8 +78,9 @@ class Group:
 def part_addresses(ctx, wt, m, n, thorough):
     g = Group(ctx, wt, m, n, 'addr')
     orders = list(itertools.permutations(range(n)))
-    if not thorough and len(orders) > 3:
-        orders = [orders[i] for i in sorted(ctx.rng.sample(range(len(orders)), 3))]
+    cap = 3 if not thorough else 12
+    if len(orders) > cap:
+        orders = [orders[i] for i in sorted(ctx.rng.sample(range(len(orders)), cap))]
     paths = [(0, 0, 0), (0, 0, 1), (0, 1, 0), (0, 0, 5)]
     if wt == 'legacy':
         paths += [(1, 0, 0), (n - 1, 1, 2)]
@@ -121,10 +122,12 @@ def part_signing(ctx, wt, m, n, how, thorough):
     for k in range(1, n + 1):
         sequences += list(itertools.permutations(range(n), k))
     sequences += [(0, 0), (n - 1, 0, n - 1)]
-    if not thorough and len(sequences) > 7:
-        must = [s for s in sequences if len(s) in (m - 1, m)][:3]
+    cap = 7 if not thorough else 40
+    if len(sequences) > cap:
+        must = [s for s in sequences if len(s) in (m - 1, m)]
+        must = [must[i] for i in sorted(ctx.rng.sample(range(len(must)), min(len(must), cap // 2)))]
         rest = [s for s in sequences if s not in must]
-        sequences = must + [rest[i] for i in sorted(ctx.rng.sample(range(len(rest)), min(4, len(rest))))]
+        sequences = must + [rest[i] for i in sorted(ctx.rng.sample(range(len(rest)), min(cap - len(must), len(rest))))]
     f26 = next((f for f in ctx.known if f['id'] == 'F26'), None)
     for seq in sequences:
         txn[0] += 1
